@@ -19,7 +19,7 @@
    (Oracle/SimOracle.v, code 81) on the flattened wiring of every generated nesting.
    Property theorems only. *)
 From TV Require Import Base Model.Wiring Model.Ticker Model.Component Model.Sim Model.SimTime Model.Inline
-  Proofs.WiringP Proofs.TickerP Proofs.FlattenP Proofs.SimP Proofs.LatestP Proofs.EqvP Proofs.InlineP Proofs.InlineLoopP
+  Proofs.WiringP Proofs.TickerP Proofs.FlattenP Proofs.SimP Proofs.LatestP Proofs.EqvP Proofs.ParDevP Proofs.InlineP Proofs.InlineLoopP
   Oracle.SimCheck Proofs.InlineScopeP Proofs.InlineLatestP Proofs.FrameP Proofs.EqvCongP.
 Open Scope Z_scope.
 
